@@ -687,6 +687,17 @@ class Kernel:
                 elif isinstance(n, ast.Expr) and isinstance(n.value, ast.Call) and \
                         isinstance(n.value.func, ast.Attribute) and n.value.func.attr == 'append':
                     targets = [n.value.func.value]
+                elif isinstance(n, ast.Call) and self.dotted_of(n.func) in self.spec.get('calls', {}):
+                    # (C07) a registered callee mutates attributes of its receiver (`if c: rays.rotate_x(a)`):
+                    # those writes are assignments of the enclosing branch
+                    cal = self.registry.get(self.spec['calls'][self.dotted_of(n.func)])
+                    fd = self.dotted_of(n.func)
+                    recv = fd.rsplit('.', 1)[0] if '.' in fd else 'self'
+                    for lab, _k in (getattr(cal, 'out_layout', None) or []):
+                        if not lab.startswith('ret'):
+                            d = self.relabel(lab, recv)
+                            if d not in out:
+                                out.append(d)
                 for t in targets:
                     for e in (t.elts if isinstance(t, ast.Tuple) else [t]):
                         if isinstance(e, ast.Subscript) and self.dotted_of(e) is None:
